@@ -418,7 +418,8 @@ theorem uniqRands_perm (q n : Nat) (r : Nat → Nat) :
   Nsq.Proofs.Timing.uniqRands_perm q n r
 
 /-- **Every channel, every tick** (at most `QueueScanSelectionCount` channels in the scan loop's
-list): one tick of `queueScanLoop` never panics, and afterwards NO channel holds anything due at
+list): one ROUND of `queueScanLoop`'s `loop:` (`Model.Timing.queueScanTick`; the whole tick incl. the dirty loop is
+`C04Live`'s `tickLoop`) never panics, and — for channels satisfying `ChanInv` — afterwards NO channel holds anything due at
 the clock reading its worker took — so in that regime lateness is at most one scan interval plus
 the scan time (wall-clock part: partial). With more channels the tick scans `min(q, n)` distinct
 ones and leaves the others untouched (`Proofs.Tick.tick_general`). -/
